@@ -76,6 +76,10 @@ class _O:
         x = d.items[i]
         return x if isinstance(x, int) else SymInt.from_unsigned(unit_term(x))
 
+    def uint(self, d, i, n, order):
+        """unsigned integer held in n bytes at offset i (one concatenation term, like the code under test builds it)"""
+        return stubs.int_from_units(list(d.items[i:i + n]), order)
+
     def name_field_ok(self, f):
         """1..32 bytes of valid UTF-8 without embedded/trailing NUL garbage: text then NUL padding"""
         from shadow.utf8 import utf8_valid
